@@ -95,6 +95,34 @@ FIXED = [
 ]
 
 
+def pulse_with_hmax(ctx):
+    """a smooth but short input pulse (width 0.2 at t = 50) on top of a basal rate, the system at steady state before it: with
+    the step bound hmax = 0.1 given as a keyword the integrator cannot step over the pulse."""
+    from bioscrape.simulator import py_simulate_model
+    from scipy.integrate import solve_ivp
+    from modelspec import independent_rhs
+    spec = {"species": ["X", "Y"], "reactions": [
+        {"reactants": [], "products": ["X"], "prop": {"type": "general", "rate": "b + h*exp(-(t-50)^2/(2*0.04))"}},
+        {"reactants": ["X"], "products": ["Y"], "prop": {"type": "massaction", "k": "k1"}},
+        {"reactants": ["Y"], "products": [], "prop": {"type": "massaction", "k": "k2"}}],
+        "params": {"b": 2.0, "h": 80.0, "k1": 0.5, "k2": 0.05}, "ic": {"X": 4, "Y": 40}}
+    for T in (np.linspace(0, 100.0, 201), np.concatenate([np.linspace(0, 40.0, 41), np.linspace(40.5, 100.0, 120)])):
+        case = {"spec": spec, "times": T.tolist(), "hmax": 0.1}
+        ctx.begin_case(case)
+        M = build_model(spec)
+        sl = M.get_species_list()
+        x0 = np.array([float(spec["ic"][s_]) for s_ in sl])
+        sol = solve_ivp(independent_rhs(spec, sl), (0.0, 100.0), x0, method="DOP853", t_eval=T, rtol=1e-10, atol=1e-10, max_step=0.05)
+        rows = np.array(py_simulate_model(T.copy(), Model=M, stochastic=False, return_dataframe=False, hmax=0.1).py_get_result())
+        ctx.evaluated()
+        err = np.abs(rows - sol.y.T)
+        if not sol.success or rows.shape != sol.y.T.shape or np.any(err > 2e-4 * (1 + np.abs(sol.y.T))):
+            i = int(np.argmax(err.max(axis=1))) if rows.shape == sol.y.T.shape else 0
+            ctx.violation("det/accuracy/hmax-keyword", "input pulse at t=50 with hmax=0.1: row %d (t=%g) is %s, the reference %s" % (i, T[i], rows[i].tolist(), sol.y.T[i].tolist()), case)
+            return
+        ctx.count("pulse_with_hmax")
+
+
 def one(ctx, rng, linear, spec=None):
     from bioscrape.simulator import py_simulate_model
     from scipy.linalg import expm
@@ -193,6 +221,7 @@ def run(ctx):
     n = 40 if ctx.quick() else 1500
     for spec in FIXED:
         one(ctx, ctx.rng, linear=False, spec=spec)
+    pulse_with_hmax(ctx)
     for i in range(n):
         one(ctx, ctx.rng, linear=(i % 2 == 0))
 
